@@ -82,8 +82,41 @@ def r1(ctx, facts):
         ctx.ob("C05-R1", "WorldExt::new inserts the storage table", ok, b.loc(), "" if ok else "World::new does not insert MetaTable<dyn AnyStorage>")
 
 
+DC = "world::world_ext::WorldExt::delete_components"
+_PURGERS = {}
+
+
+def purgers(facts):
+    """crate-local helpers that hand one of their parameters to delete_components on every path: path -> arg index of the slice"""
+    if id(facts) in _PURGERS:
+        return _PURGERS[id(facts)]
+    out = {}
+    for b in facts.bodies:
+        if b.kind == "Closure" or b.trait_item == DC:
+            continue
+        dcs = [bb for bb, t in b.calls() if t["callee"].get("path") == DC]
+        if len(dcs) == 1 and b.must_pass(0, dcs)[0]:
+            ao = b.arg_origin(dcs[0], 1)
+            if ao[0] == "param" and not ao[2] and b.trait_item not in ("world::world_ext::WorldExt::delete_entities", "world::world_ext::WorldExt::maintain"):
+                out[b.path] = ao[1] - 1
+    _PURGERS[id(facts)] = out
+    return out
+
+
+def dc_arg(facts, t):
+    """position of the deleted-handles slice if the call purges components (directly or through a wrapper), else None"""
+    c = t["callee"]
+    if c.get("path") == DC:
+        return 1
+    pg = purgers(facts)
+    for p in (c.get("resolved"), c.get("path")):
+        if p in pg:
+            return pg[p]
+    return None
+
+
 def is_dc(t):
-    return t["callee"].get("path") == "world::world_ext::WorldExt::delete_components"
+    return t["callee"].get("path") == DC
 
 
 def r2(ctx, facts):
@@ -100,7 +133,7 @@ def r2(ctx, facts):
         if not ves:
             ctx.ob("C05-R2", "delete_entities branches on the kill result", False, b.loc(kbb), "no match on the result of kill()")
             continue
-        dcs = [(bb, t) for bb, t in b.calls() if is_dc(t)]
+        dcs = [(bb, t) for bb, t in b.calls() if dc_arg(facts, t) is not None]
         for edge_name in ("Err", "Ok"):
             for ve in ves:
                 e = ve["edges"].get(edge_name)
@@ -114,7 +147,7 @@ def r2(ctx, facts):
                 ctx.ob("C05-R2", "delete_entities %s-edge purges on every path" % edge_name, ok and bool(mine), b.loc(ve["switch"]),
                        "" if ok and mine else "after kill() returned %s there is a path to return without delete_components: %s" % (edge_name, b.fmt_path(wit)))
                 for bb, t in mine:
-                    ao = b.arg_origin(bb, 1)
+                    ao = b.arg_origin(bb, dc_arg(facts, t))
                     roots = b.roots(ao)
                     has_batch = any(r == batch or (r[0] == batch[0] and r[1] == batch[1]) for r in roots)
                     if edge_name == "Err":
@@ -136,8 +169,8 @@ def r2(ctx, facts):
             continue
         mbb = merges[0]
         res = ("call", mbb, ())
-        dcs = [(bb, t) for bb, t in b.calls() if is_dc(t)]
-        good = [bb for bb, t in dcs if b.depends_on_call(b.arg_origin(bb, 1), mbb) and b.arg_origin(bb, 1)[0] != "param"]
+        dcs = [(bb, t) for bb, t in b.calls() if dc_arg(facts, t) is not None]
+        good = [bb for bb, t in dcs if b.depends_on_call(b.arg_origin(bb, dc_arg(facts, t)), mbb) and b.arg_origin(bb, dc_arg(facts, t))[0] != "param"]
         ctx.ob("C05-R2", "maintain purges the handles returned by merge()", bool(good), b.loc(mbb),
                "" if good else "no delete_components call takes the merge() result")
         if good:
@@ -220,6 +253,12 @@ def r4(ctx, facts):
         return out
     allowed = {"world::world_ext::WorldExt::delete_entities", "world::world_ext::WorldExt::maintain"}
     c1 = who(lambda b: b.trait_item == "world::world_ext::WorldExt::delete_components")
+    pg = purgers(facts)
+    # a wrapper that only forwards its parameter to the purge is as good as its own callers
+    for w in list(c1):
+        if w in pg:
+            c1.discard(w)
+            c1 |= {cb.path for cb, bb in callers.get(w, [])}
     bad = [c for c in c1 if not any(x.trait_item in allowed for x in facts.by_path[c])]
     ctx.ob("C05-R4", "callers of delete_components", not bad and bool(c1), "", "" if not bad else "unexpected caller(s) of the purge: %s" % bad)
     c2 = who(lambda b: b.trait_item == "storage::AnyStorage::drop")
